@@ -1,6 +1,7 @@
 """C10 - registry lookup splits numbers losslessly and by the documented prefix rules (DESIGN 3, C10)."""
 
 import io
+import os
 
 from vm import common as C
 from vm import datfile as D
@@ -34,7 +35,54 @@ def shards(tier):
         out.append({'name': 'file:' + name, 'kind': 'file', 'db': name, 'path': path})
     n = 16 if tier == 'quick' else 64
     out += [{'name': 'gen%02d' % i, 'kind': 'gen', 'part': i} for i in range(n)]
+    out.append({'name': 'locale', 'kind': 'locale'})
     return out
+
+
+LOCALE_ENVS = [
+    ('utf8', {'LC_ALL': 'C.UTF-8', 'PYTHONUTF8': '1'}),
+    ('posix-locale-no-utf8-mode', {'LC_ALL': 'C', 'LANG': 'C', 'PYTHONUTF8': '0', 'PYTHONCOERCECLOCALE': '0'}),
+    ('posix-locale-default-flags', {'LC_ALL': 'POSIX', 'LANG': 'POSIX'}),
+    ('latin1-stdio', {'LC_ALL': 'C', 'PYTHONUTF8': '0', 'PYTHONCOERCECLOCALE': '0', 'PYTHONIOENCODING': 'latin-1'}),
+]
+
+
+def locale_work(viols):
+    """The registries must load to the same content whatever the process locale is (the files are UTF-8 by
+    definition of the format, not by the user's settings): one child interpreter per environment."""
+    import json
+    import subprocess
+    import sys
+    here = os.path.dirname(os.path.abspath(__file__))
+    results = {}
+    for label, env in LOCALE_ENVS:
+        e = {k: v for k, v in os.environ.items() if not k.startswith(('LC_', 'LANG', 'PYTHONUTF8', 'PYTHONCOERCECLOCALE', 'PYTHONIOENCODING'))}
+        e.update(env)
+        e['PYTHONHASHSEED'] = '0'
+        try:
+            p = subprocess.run([sys.executable, '-B', os.path.join(here, 'localetrial.py'), C.REPO], env=e, stdout=subprocess.PIPE,
+                               stderr=subprocess.PIPE, timeout=600)
+            results[label] = json.loads(p.stdout.decode('ascii')) if p.returncode == 0 else {'__error__': p.stderr.decode('utf-8', 'replace')[-400:]}
+        except Exception as ex:  # noqa: B902
+            results[label] = {'__error__': repr(ex)}
+    ref = results['utf8']
+    if '__error__' in ref:
+        raise C.Inconclusive('locale trial: reference child failed: %s' % ref['__error__'])
+    compared = 0
+    for label, res in results.items():
+        if label == 'utf8':
+            continue
+        if '__error__' in res:
+            raise C.Inconclusive('locale trial: child %s failed: %s' % (label, res['__error__']))
+        for name in sorted(ref):
+            if name == 'encoding':
+                continue
+            compared += 1
+            if res.get(name) != ref[name]:
+                add(viols, 'C10|file|registry-depends-on-process-locale',
+                    'registry %r loads as %r under %s (encodings %r) but as %r under UTF-8' % (name, res.get(name), label, res.get('encoding'), ref[name]),
+                    {'label': 'locale:' + label, 'query': name})
+    return compared, results
 
 
 def add(viols, sig, what, witness):
@@ -177,12 +225,36 @@ def gen_registry(rng):
             if rng.random() < 0.15:
                 for _c in range(rng.randrange(1, 4)):
                     lines.append(' ' * (indent + step_indent) + rnd_range(rng.choice((1, 2))) + ' c="%d"' % rng.randrange(5))
+    def emit_chain(indent):
+        # many equal-length ranges that follow one another, a few of them meeting in one value or listed twice
+        L = 3
+        blocks = []
+        cur = rng.randrange(0, 40)
+        for _ in range(rng.randrange(64, 160)):
+            lo = cur + rng.choice((0, 0, 1, 1, 1, 2, 3))
+            hi = lo + rng.choice((0, 0, 0, 1, 3, 8))
+            if hi > 999:
+                break
+            cur = hi
+            rs = '%03d' % lo if lo == hi else '%03d-%03d' % (lo, hi)
+            block = [' ' * indent + rs + ''.join(' %s="%s"' % (rng.choice(keys), 'z%d' % rng.randrange(9)) for _p in range(rng.choice((0, 1, 1, 2))))]
+            if rng.random() < 0.2:
+                for _c in range(rng.randrange(1, 3)):
+                    block.append(' ' * (indent + step_indent) + rnd_range(1) + ' c="%d"' % rng.randrange(5))
+            blocks.append(block)
+        if rng.random() < 0.5:
+            rng.shuffle(blocks)
+        for b in blocks:
+            lines.extend(b)
     if rng.random() < 0.3:
         lines.append('# a comment')
-    wide = rng.random() < 0.12
+    wide = rng.random() < 0.2
     if wide:
         alphabet = '0123456789'
-        emit_wide(0)
+        if rng.random() < 0.5:
+            emit_wide(0)
+        else:
+            emit_chain(0)
     else:
         emit(0, 0)
     if rng.random() < 0.3:
@@ -206,6 +278,11 @@ def work(shard, tier):
     counters = {'queries': 0, 'generated_registries': 0, 'equal_length_overlap_queries': 0, 'shorter_wins_queries': 0}
     samples = []
     rng = C.rng_for('C10', shard['name'])
+    if shard['kind'] == 'locale':
+        compared, results = locale_work(viols)
+        return {'evaluations': compared, 'nontrivial': compared, 'violations': list(viols.values()),
+                'samples': [{'locale_trial': lab, 'encodings': r.get('encoding'), 'registries': len(r) - 1} for lab, r in results.items()],
+                'counters': {'locale_environments': len(results), 'registry_loads_compared_across_locales': compared}, 'sets': {}}
     if shard['kind'] == 'file':
         text = open(shard['path'], encoding='utf-8').read()
         errors = []
